@@ -737,3 +737,97 @@ Example sqfs2tar_socket_link_refuted :
   | None => False
   end.
 Proof. exact it_sock_dangling. Qed.
+
+(* ==== sqfs2tar --subdir / --keep-as-dir / --root-becomes: the selection rule (session 3 strengthening, seed C04-6) ====
+   coq/C04/SubdirModel.v = keep_entry() and the rewriting part of next() of bin/sqfs2tar/src/iterator.c on C strings;
+   coq/C04/SubdirProofs.v.  [join] / [split_slash] / [good] are C18's (a path = list of components). *)
+From SqfsV Require C04.SubdirModel C04.SubdirProofs C18.CanonSpec C18.CanonProofs.
+
+(* string level, for ALL byte strings: keep_entry's loop body accepts n for the selection p iff n is p, or n is
+   "p/..." or p is "n/..." - never a name that merely starts with p *)
+Theorem subdir_keep_one_exact : forall p n : list N,
+  SubdirModel.keep_one p n = true <->
+  n = p \/ (exists t, n = p ++ CanonModel.slash :: t) \/ (exists t, p = n ++ CanonModel.slash :: t).
+Proof. exact SubdirProofs.keep_one_iff. Qed.
+Print Assumptions subdir_keep_one_exact.
+
+(* component level: that is the documented selection (the selected path, everything below it, the directories leading to it) *)
+Theorem subdir_selects_is_keep_one : forall ps cs : list (list N),
+  SubdirProofs.wfp ps -> SubdirProofs.wfp cs ->
+  SubdirModel.keep_one (CanonSpec.join ps) (CanonSpec.join cs) = SubdirModel.subdir_selects ps cs.
+Proof. exact SubdirProofs.keep_one_selects. Qed.
+Print Assumptions subdir_selects_is_keep_one.
+
+(* one --subdir without -k: next() emits exactly the entries strictly below the selected path, and the name is the path
+   relative to it (prefixed by --root-becomes, '/' appended to directories); the selected directory itself and what leads
+   to it are not emitted *)
+Theorem subdir_strip_is_relative_path : forall (ps cs : list (list N)) (rb : option (list N)) (d : bool),
+  SubdirProofs.wfp ps -> SubdirProofs.wfp cs ->
+  SubdirModel.s2t_name [CanonSpec.join ps] false rb d (CanonSpec.join cs) =
+  match SubdirModel.subdir_strip ps cs with
+  | Some r => Some (SubdirModel.with_dir_slash d (SubdirModel.with_root rb (CanonSpec.join r)))
+  | None => None
+  end.
+Proof. exact SubdirProofs.s2t_name_single. Qed.
+Print Assumptions subdir_strip_is_relative_path.
+
+(* -k or several --subdir: exactly the selected entries under their own names *)
+Theorem subdir_keep_as_dir : forall (subs : list (list (list N))) (cs : list (list N)) (k : bool) (rb : option (list N)) (d : bool),
+  subs <> [] -> Forall SubdirProofs.wfp subs -> SubdirProofs.wfp cs ->
+  SubdirModel.strip_of (map CanonSpec.join subs) k = None ->
+  SubdirModel.s2t_name (map CanonSpec.join subs) k rb d (CanonSpec.join cs) =
+  if existsb (fun ps => SubdirModel.subdir_selects ps cs) subs
+  then Some (SubdirModel.with_dir_slash d (SubdirModel.with_root rb (CanonSpec.join cs))) else None.
+Proof. exact SubdirProofs.s2t_name_keep. Qed.
+Print Assumptions subdir_keep_as_dir.
+
+(* the stripped names of two different entries never collide (whatever --root-becomes, whichever is a directory) *)
+Theorem subdir_stripped_names_never_collide :
+  forall (ps c1 c2 r1 r2 : list (list N)) (rb : option (list N)) (d1 d2 : bool),
+  Forall CanonProofs.good c1 -> Forall CanonProofs.good c2 ->
+  SubdirModel.subdir_strip ps c1 = Some r1 -> SubdirModel.subdir_strip ps c2 = Some r2 ->
+  SubdirModel.with_dir_slash d1 (SubdirModel.with_root rb (CanonSpec.join r1)) =
+  SubdirModel.with_dir_slash d2 (SubdirModel.with_root rb (CanonSpec.join r2)) -> c1 = c2.
+Proof. exact SubdirProofs.strip_names_never_collide. Qed.
+Print Assumptions subdir_stripped_names_never_collide.
+
+Theorem subdir_kept_names_never_collide : forall (c1 c2 : list (list N)) (rb : option (list N)) (d1 d2 : bool),
+  c1 <> [] -> c2 <> [] -> Forall CanonProofs.good c1 -> Forall CanonProofs.good c2 ->
+  SubdirModel.with_dir_slash d1 (SubdirModel.with_root rb (CanonSpec.join c1)) =
+  SubdirModel.with_dir_slash d2 (SubdirModel.with_root rb (CanonSpec.join c2)) -> c1 = c2.
+Proof. exact SubdirProofs.kept_names_never_collide. Qed.
+Print Assumptions subdir_kept_names_never_collide.
+
+(* the seeded change C04-6 (prefix compare without the '/' test): "lib64/a" is kept for --subdir lib although it is not
+   selected, and the strip turns it into "4/a" *)
+Theorem subdir_prefix_only_refuted :
+  exists ps cs, SubdirProofs.wfp ps /\ SubdirProofs.wfp cs /\
+                SubdirModel.keep_one_noslash (CanonSpec.join ps) (CanonSpec.join cs) = true /\
+                SubdirModel.subdir_selects ps cs = false /\
+                skipn (S (length (CanonSpec.join ps))) (CanonSpec.join cs) = [52; CanonModel.slash; 97].
+Proof. exact SubdirProofs.keep_one_noslash_refuted_proof. Qed.
+Print Assumptions subdir_prefix_only_refuted.
+
+(* non-vacuity: image walk lib/, lib/a, lib/lib/, lib64/, lib64/a, lib.conf, li under -d lib, -k -d lib, -d lib -d lib64/a -r top *)
+Example ex_subdir_walk :
+  let w := [(SubdirProofs.s_li, false); (SubdirProofs.s_lib, true); (SubdirProofs.s_lib ++ [47; 97], false);
+            (SubdirProofs.s_lib ++ 47 :: SubdirProofs.s_lib, true); (SubdirProofs.s_libconf, false);
+            (SubdirProofs.s_lib64, true); (SubdirProofs.s_lib64 ++ [47; 97], false)] in
+  SubdirModel.s2t_names [SubdirProofs.s_lib] false None w = [[97]; SubdirProofs.s_lib ++ [47]] /\
+  SubdirModel.s2t_names [SubdirProofs.s_lib] true None w =
+    [SubdirProofs.s_lib ++ [47]; SubdirProofs.s_lib ++ [47; 97]; SubdirProofs.s_lib ++ 47 :: SubdirProofs.s_lib ++ [47]] /\
+  SubdirModel.s2t_names [SubdirProofs.s_lib ++ 47 :: SubdirProofs.s_lib; SubdirProofs.s_lib64 ++ [47; 97]] false (Some [116]) w =
+    [[116; 47]; 116 :: 47 :: SubdirProofs.s_lib ++ [47]; 116 :: 47 :: SubdirProofs.s_lib ++ 47 :: SubdirProofs.s_lib ++ [47];
+     116 :: 47 :: SubdirProofs.s_lib64 ++ [47]; 116 :: 47 :: SubdirProofs.s_lib64 ++ [47; 97]].
+Proof. repeat split. Qed.
+
+Example ex_subdir_hyps :
+  SubdirProofs.wfp [SubdirProofs.s_lib] /\ SubdirProofs.wfp [SubdirProofs.s_lib; SubdirProofs.s_a] /\
+  Forall CanonProofs.good [SubdirProofs.s_lib; SubdirProofs.s_a] /\
+  SubdirModel.subdir_strip [SubdirProofs.s_lib] [SubdirProofs.s_lib; SubdirProofs.s_a] = Some [SubdirProofs.s_a] /\
+  SubdirModel.subdir_strip [SubdirProofs.s_lib] [SubdirProofs.s_lib64; SubdirProofs.s_a] = None /\
+  SubdirModel.subdir_selects [SubdirProofs.s_lib; SubdirProofs.s_a] [SubdirProofs.s_lib] = true /\
+  SubdirModel.subdir_selects [SubdirProofs.s_lib] [SubdirProofs.s_li] = false.
+Proof.
+  repeat split; try discriminate; try (repeat constructor; discriminate).
+Qed.
